@@ -374,6 +374,9 @@ func runC15(rc *RunCtx) {
 	if sc.ReadTimeout > 0 {
 		rc.Fault("server_read_timeouts_between_fragments", true)
 	}
+	if out.HeldBad != "" {
+		rc.Violate("request_changed_after_handling", "handler_kept_request", "%s", out.HeldBad)
+	}
 	if len(out.Panics) > 0 || len(twin.Panics) > 0 {
 		ps := append(out.Panics, twin.Panics...)
 		rc.Violate("panic", "harness_task", "panic in %s: %s", ps[0].Task, ps[0].Value)
